@@ -81,7 +81,15 @@ print(f"[{sid}] caught by: {json.dumps(caught, indent=1)[:1500] if caught else '
 if keep:
     d = f"/verif/seeded/{sid}"
     os.makedirs(d, exist_ok=True)
-    shutil.copy(patch, os.path.join(d, "patch.diff"))
-    shutil.copy(demo, os.path.join(d, "demo.py"))
+    for src_, dst_ in ((patch, os.path.join(d, "patch.diff")), (demo, os.path.join(d, "demo.py"))):
+        if os.path.abspath(src_) != os.path.abspath(dst_):
+            shutil.copy(src_, dst_)
+    try:   # keep hand-written fields across re-evaluations
+        old_ = json.load(open(os.path.join(d, "meta.json")))
+        for k_ in ("needs", "first_contact", "note", "declined"):
+            if old_.get(k_) and not meta.get(k_):
+                meta[k_] = old_[k_]
+    except (OSError, ValueError):
+        pass
     meta["what_ran"] = "tools/seed_eval.py: demo on clean and patched scratch worktree, pinned suite vs BASELINE.json on the patched worktree, all 20 quick checks on /repo with the patch applied (then reverted)"
     json.dump(meta, open(os.path.join(d, "meta.json"), "w"), indent=1)
